@@ -237,14 +237,23 @@ def canon_result(res):
 def run_parser(parser, argv):
     """-> (canonical string, [(name, kwargs)] or None, error text)"""
     from invoke.exceptions import ParseError
+    tokens = list(argv)  # the caller's command line: ONE list object, handed to the parser twice
     try:
-        res = parser.parse_argv(list(argv))
+        res = parser.parse_argv(tokens)
     except ParseError as e:
         return "ERR parse", None, "ParseError: %s" % e
     except Exception as e:  # noqa
         return "ERR other:" + type(e).__name__, None, "%s: %s" % (type(e).__name__, e)
     ctxs = list(res)[1:] if parser.initial is not None else list(res)
-    return canon_result(res), [(c.name, dict(c.as_kwargs)) for c in ctxs], None
+    first = canon_result(res)
+    # the same command line (the very same list object) spells the same invocation the second time too
+    try:
+        again = canon_result(parser.parse_argv(tokens))
+    except Exception as e:  # noqa
+        again = "%s: %s" % (type(e).__name__, e)
+    if again != first:
+        return "ERR reparse", None, "the same command-line list parsed a second time gave %s (first time: %s)" % (again[:200], first[:200])
+    return first, [(c.name, dict(c.as_kwargs)) for c in ctxs], None
 
 
 def canon_model(line):
